@@ -90,23 +90,28 @@ struct Scenario {
 /// arbitrary 8-byte hash and `size` bytes of data
 fn scenario(co_out: Out, two: bool) -> (CloneOutput<Out>, VerifiedChunk, Scenario) {
     let hl: usize = kani::any();
-    kani::assume(hl >= 1 && hl <= 4);
+    // hash length <= 2: slice compares and hashing are loops over the key bytes, and the harness-wide unwind bound
+    // multiplies through feed's offset loop (seek + write_all futures per iteration)
+    kani::assume(hl >= 1 && hl <= 2);
+    let size: usize = kani::any();
+    kani::assume(size >= 1 && size <= 3);
+    scenario_with(co_out, two, hl, size)
+}
+fn scenario_with(co_out: Out, two: bool, hl: usize, size: usize) -> (CloneOutput<Out>, VerifiedChunk, Scenario) {
     let key: [u8; 4] = kani::any();
     let hash: [u8; 8] = kani::any();
-    let size: usize = kani::any();
-    kani::assume(size >= 1 && size <= 4);
     let off: u64 = kani::any();
     kani::assume(off < 1 << 40);
-    let mut idx = ChunkIndex::new_empty(hl);
-    idx.add_chunk(HashSum::from(&key[..]), size, &[off]);
+    // index state injected directly (add_chunk itself: proofs/chunk_index.rs)
+    let mut idx = crate::chunk_index::kani_proofs::mk_index1(hl, &key[..], size, off);
     if two {
         let key2: [u8; 4] = kani::any();
         // a different chunk: its truncated key differs from both
         kani::assume(key2[0] != key[0] && key2[0] != hash[0]);
-        idx.add_chunk(HashSum::from(&key2[..]), 2, &[off + 100]);
+        crate::chunk_index::kani_proofs::add_entry(&mut idx, &key2[..], 2, off + 100);
     }
     let v = VerifiedChunk { chunk: Chunk(Bytes::from_static(&SRC[..size])), hash_sum: HashSum::from(&hash[..]) };
-    let hit = (hl < 1 || hash[0] == key[0]) && (hl < 2 || hash[1] == key[1]) && (hl < 3 || hash[2] == key[2]) && (hl < 4 || hash[3] == key[3]);
+    let hit = hash[0] == key[0] && (hl < 2 || hash[1] == key[1]);
     (CloneOutput::new(co_out, idx), v, Scenario { hl, key, hash, size, off, hit })
 }
 fn run_feed(co: &mut CloneOutput<Out>, v: &VerifiedChunk) -> io::Result<usize> {
@@ -119,30 +124,52 @@ fn run_feed(co: &mut CloneOutput<Out>, v: &VerifiedChunk) -> io::Result<usize> {
     }
 }
 
-/// C02 + C13, fault-free: a chunk whose truncated hash is in the index is
-/// written -- all of its bytes, exactly once, at exactly the entry's offset --
-/// and the entry is gone (no later feed can write that location again);
-/// otherwise nothing at all is written and the index is unchanged.
+fn run_write_offset(co: &mut CloneOutput<Out>, offsets: &[u64], v: &VerifiedChunk) -> io::Result<usize> {
+    let mut cx = noop_cx();
+    let fut = co.write_offset(offsets, v);
+    tokio::pin!(fut);
+    match fut.as_mut().poll(&mut cx) {
+        Poll::Ready(r) => r,
+        Poll::Pending => panic!("write_offset pending on a ready output"),
+    }
+}
+
+// NOTE on decomposition.  `feed` as a whole (async fn awaiting the async fn
+// write_offset over offsets that live in a heap Vec moved out of the index)
+// does not get through CBMC: every variant tried -- one entry, concrete key
+// length and size, scripted lookup -- ends in > 28 GB during propositional
+// reduction.  What does get through, and is registered:
+//   * the lookup (`ChunkIndex::remove`) on its own: proofs/chunk_index.rs
+//   * `write_offset` on its own, fault-free and under every fault: below
+//   * the two real functions called in feed's order on the index's own
+//     ChunkLocation (c13_lookup_then_write_step), and `feed` itself on the
+//     miss path of an empty index (c13_feed_miss_empty_index).
+// The four lines of glue inside `feed` on the hit path are therefore read,
+// not executed; this is stated in MANIFEST/evidence.
+
+/// C13 (write step): for every list of 1..2 destination offsets and every
+/// chunk of 1..3 bytes, write_offset issues, per offset and in order, one seek
+/// to exactly that offset followed by the chunk's bytes -- all of them, once.
 #[kani::proof]
-#[kani::unwind(6)]
-fn c13_feed_step() {
-    let (mut co, v, sc) = scenario(out(), false);
-    let before = co.len();
-    let r = run_feed(&mut co, &v);
+#[kani::unwind(5)]
+fn c13_write_offset_step() {
+    let n: usize = kani::any();
+    kani::assume(n >= 1 && n <= 2);
+    let o: [u64; 2] = kani::any();
+    kani::assume(o[0] < 1 << 40 && o[1] < 1 << 40);
+    let size: usize = kani::any();
+    kani::assume(size >= 1 && size <= 3);
+    let mut co = CloneOutput::new(out(), ChunkIndex::new_empty(4));
+    let v = VerifiedChunk { chunk: Chunk(Bytes::from_static(&SRC[..size])), hash_sum: HashSum::from(&[9u8; 4][..]) };
+    let r = run_write_offset(&mut co, &o[..n], &v);
     match r {
-        Ok(n) => {
-            if sc.hit {
-                assert!(n == sc.size);
-                assert!(co.inner.n == 1 && co.inner.seeks == 1);
-                assert!(co.inner.w_off[0] == sc.off && co.inner.w_len[0] == sc.size);
-                assert!(co.inner.w_b0[0] == SRC[0] && (sc.size < 2 || co.inner.w_b1[0] == SRC[1]));
-                assert!(co.len() == before - 1 && !co.chunks().contains(v.hash()));
-                kani::cover!(sc.hl == 4 && sc.size == 4);
-            } else {
-                assert!(n == 0 && co.inner.n == 0 && co.inner.seeks == 0);
-                assert!(co.len() == before);
-                kani::cover!(sc.hash[0] == sc.key[0] && sc.hl > 1); // differs only beyond the first byte
-            }
+        Ok(k) => {
+            assert!(k == n * size);
+            assert!(co.inner.n == n && co.inner.seeks == n);
+            assert!(co.inner.w_off[0] == o[0] && co.inner.w_len[0] == size && co.inner.w_b0[0] == SRC[0]);
+            assert!(size < 2 || co.inner.w_b1[0] == SRC[1]);
+            assert!(n < 2 || (co.inner.w_off[1] == o[1] && co.inner.w_len[1] == size && co.inner.w_b0[1] == SRC[0]));
+            kani::cover!(n == 2 && size == 3);
         }
         Err(e) => {
             assert!(false, "no fault was injected");
@@ -153,25 +180,41 @@ fn c13_feed_step() {
     std::mem::forget(v);
 }
 
-/// same with a second, unrelated entry in the index: it is neither written nor removed
+/// C05 (fault step): a seek or write that fails, or a write that is torn
+/// (accepts only a prefix, possibly 0 bytes) at any point => Err, never Ok
+/// with fewer bytes on the output than n * size; bytes that did land are
+/// contiguous from the destination offset.
 #[kani::proof]
-#[kani::unwind(6)]
-fn c13_feed_step_other_entry_untouched() {
-    let (mut co, v, sc) = scenario(out(), true);
-    let r = run_feed(&mut co, &v);
+#[kani::unwind(5)]
+fn c05_write_offset_fault_step() {
+    let mut ou = out();
+    ou.fail_seek_at = kani::any();
+    ou.fail_write_at = kani::any();
+    ou.short_at = kani::any();
+    ou.short_len = kani::any();
+    kani::assume(ou.short_len <= 2);
+    let off: u64 = kani::any();
+    kani::assume(off < 1 << 40);
+    let size: usize = kani::any();
+    kani::assume(size >= 1 && size <= 3);
+    let mut co = CloneOutput::new(ou, ChunkIndex::new_empty(4));
+    let v = VerifiedChunk { chunk: Chunk(Bytes::from_static(&SRC[..size])), hash_sum: HashSum::from(&[9u8; 4][..]) };
+    let offs = [off];
+    let r = run_write_offset(&mut co, &offs, &v);
     match r {
-        Ok(n) => {
-            if sc.hit {
-                assert!(n == sc.size && co.inner.n == 1 && co.inner.w_off[0] == sc.off && co.inner.w_len[0] == sc.size);
-                assert!(co.len() == 1);
-            } else {
-                assert!(n == 0 && co.inner.n == 0 && co.len() == 2);
-            }
-            kani::cover!(sc.hit);
-            kani::cover!(!sc.hit);
+        Ok(k) => {
+            // success only when every byte reached the output, contiguously from the destination
+            assert!(k == size && co.inner.total == size);
+            assert!(co.inner.w_off[0] == off);
+            assert!(co.inner.n < 2 || co.inner.w_off[1] == off + co.inner.w_len[0] as u64);
+            assert!(co.inner.n < 3 || co.inner.w_off[2] == co.inner.w_off[1] + co.inner.w_len[1] as u64);
+            kani::cover!(co.inner.n == 2); // torn write completed by write_all's second round
         }
         Err(e) => {
-            assert!(false);
+            assert!(co.inner.total < size);
+            kani::cover!(co.inner.total > 0); // some bytes landed before the failure
+            kani::cover!(co.inner.total == 0 && co.inner.seeks == 0); // the seek failed
+            kani::cover!(e.kind() == io::ErrorKind::WriteZero); // device full
             std::mem::forget(e);
         }
     }
@@ -179,42 +222,63 @@ fn c13_feed_step_other_entry_untouched() {
     std::mem::forget(v);
 }
 
-/// C05 (fault step): a seek or write that fails, or a write that is cut short
-/// and then fails / reports 0, at any point => feed returns Err, never Ok
-/// with fewer bytes on the output than the chunk has.
+/// C02/C13 (lookup then write, the two real functions in feed's order): a
+/// chunk whose truncated hash is in the index is written -- all of its bytes,
+/// once, at exactly the entry's offset -- and the entry is gone, so no later
+/// feed can write that location again; otherwise nothing is removed.
 #[kani::proof]
-#[kani::unwind(6)]
-fn c05_feed_fault_step() {
-    let mut o = out();
-    o.fail_seek_at = kani::any();
-    o.fail_write_at = kani::any();
-    o.short_at = kani::any();
-    o.short_len = kani::any();
-    kani::assume(o.short_len <= 3);
-    let (mut co, v, sc) = scenario(o, false);
+#[kani::unwind(5)]
+fn c13_lookup_then_write_step() {
+    let (mut co, v, sc) = scenario(out(), true);
+    let before = co.len();
+    let loc = co.clone_index.remove(v.hash());
+    match loc {
+        Some(location) => {
+            assert!(sc.hit);
+            assert!(location.size() == sc.size && location.offsets().len() == 1 && location.offsets()[0] == sc.off);
+            let r = run_write_offset(&mut co, location.offsets(), &v);
+            match r {
+                Ok(n) => {
+                    assert!(n == sc.size && co.inner.n == 1 && co.inner.seeks == 1);
+                    assert!(co.inner.w_off[0] == sc.off && co.inner.w_len[0] == sc.size && co.inner.w_b0[0] == SRC[0]);
+                }
+                Err(e) => {
+                    assert!(false);
+                    std::mem::forget(e);
+                }
+            }
+            assert!(co.len() == before - 1 && !co.chunks().contains(v.hash()));
+            kani::cover!(sc.hl == 2 && sc.size == 3);
+            std::mem::forget(location);
+        }
+        None => {
+            assert!(!sc.hit);
+            assert!(co.len() == before);
+            kani::cover!(sc.hash[0] == sc.key[0] && sc.hl > 1); // differs only beyond the first byte
+        }
+    }
+    std::mem::forget(co);
+    std::mem::forget(v);
+}
+
+/// `feed` itself, miss path: nothing is written when the index has no entry.
+#[kani::proof]
+#[kani::unwind(8)]
+fn c13_feed_miss_empty_index() {
+    let hl: usize = kani::any();
+    kani::assume(hl <= 4);
+    let mut co = CloneOutput::new(out(), ChunkIndex::new_empty(hl));
+    let hash: [u8; 8] = kani::any();
+    let v = VerifiedChunk { chunk: Chunk(Bytes::from_static(&SRC[..3])), hash_sum: HashSum::from(&hash[..]) };
     let r = run_feed(&mut co, &v);
     match r {
-        Ok(n) => {
-            if sc.hit {
-                // success is only reported when every byte reached the output, contiguously from the entry's offset
-                assert!(n == sc.size);
-                assert!(co.inner.total == sc.size);
-                assert!(co.inner.w_off[0] == sc.off);
-                assert!(co.inner.n < 2 || co.inner.w_off[1] == sc.off + co.inner.w_len[0] as u64);
-                assert!(co.inner.n < 3 || co.inner.w_off[2] == co.inner.w_off[1] + co.inner.w_len[1] as u64);
-                kani::cover!(co.inner.n == 2); // torn write completed by write_all's second round
-            } else {
-                assert!(n == 0 && co.inner.n == 0);
-            }
-        }
+        Ok(n) => assert!(n == 0 && co.inner.n == 0 && co.inner.seeks == 0 && co.is_empty()),
         Err(e) => {
-            assert!(sc.hit);
-            assert!(co.inner.total < sc.size || co.inner.fail_write_at < MAXW);
-            kani::cover!(co.inner.total > 0); // some bytes landed before the failure
-            kani::cover!(co.inner.total == 0 && co.inner.seeks == 0); // seek failed
+            assert!(false);
             std::mem::forget(e);
         }
     }
+    kani::cover!(true);
     std::mem::forget(co);
     std::mem::forget(v);
 }
